@@ -105,6 +105,13 @@ func c06Alphabet() []c06Msg {
 		}
 	}
 	out = append(out, c06Msg{"many-small-allocations", many, mv})
+	// nested structs whose default initialiser provides a non-nil list: each decoded struct owns its copy
+	dps, dpo := universe.DPSpecs()
+	dv := ref.ZeroStruct(dpo)
+	dv.F[0] = ref.InitStruct(dps)
+	dv.F[0].F[5] = ref.InitStruct(dps)
+	dv.F[1] = &ref.Val{K: ref.KMap, M: [][2]*ref.Val{{ref.Int(ref.KI32, 1), ref.InitStruct(dps)}, {ref.Int(ref.KI32, 2), ref.InitStruct(dps)}}}
+	out = append(out, c06Msg{"nested-default-containers", dpo, dv})
 	c06Cache = out
 	return out
 }
